@@ -303,8 +303,10 @@ type Pairs<'a, T> = box_iter::BoxIter<'a, (T, T)>;
 
 /// Run `self` and `r` and return the cartesian product of their outputs.
 fn cartesian<'a, D: DataT>(l: &'a Id, r: &'a Id, cv: Cv<'a, D>) -> Pairs<'a, ValX<'a, D::V<'a>>> {
-    flat_map_with(l.run(cv.clone()), cv, move |l, cv| {
-        map_with(r.run(cv), l, |r, l| (l, r))
+    flat_map_with(l.run(cv.clone()), cv, move |l, cv| match l {
+        // if `l` fails, yield its error without running `r`, like `l as $x | r as $y | ...`
+        Err(_) => box_once((l, Ok(cv.1))),
+        Ok(_) => map_with(r.run(cv), l, |r, l| (l, r)),
     })
 }
 
